@@ -8,23 +8,29 @@ open SqiModel.Quat
 
 namespace SqiProofs.Xgcd
 
-theorem egcd_spec : ∀ (b a : Nat), (egcd a b).1 * (a : ℤ) + (egcd a b).2 * (b : ℤ) = (Nat.gcd a b : ℤ) := by
-  intro b
-  induction b using Nat.strongRecOn with
-  | _ b ih =>
-    intro a
-    unfold egcd
+theorem egcdAux_spec : ∀ (fuel a b : Nat), b < fuel →
+    (egcdAux fuel a b).1 * (a : ℤ) + (egcdAux fuel a b).2 * (b : ℤ) = (Nat.gcd a b : ℤ) := by
+  intro fuel
+  induction fuel with
+  | zero => intro a b h; omega
+  | succ n ih =>
+    intro a b hlt
+    unfold egcdAux
     by_cases hb : b = 0
     · subst hb; simp
-    · simp only [hb, dite_false]
-      have h := ih (a % b) (Nat.mod_lt _ (Nat.pos_of_ne_zero hb)) b
+    · simp only [hb, if_false]
+      have hmod : a % b < b := Nat.mod_lt _ (Nat.pos_of_ne_zero hb)
+      have h := ih b (a % b) (by omega)
       have hg : Nat.gcd b (a % b) = Nat.gcd a b := by
         rw [Nat.gcd_comm b (a % b), ← Nat.gcd_rec, Nat.gcd_comm]
       rw [hg] at h
       have hdm : (a : ℤ) = (b : ℤ) * ((a / b : Nat) : ℤ) + ((a % b : Nat) : ℤ) := by
         exact_mod_cast (Nat.div_add_mod a b).symm
       rw [← h]
-      linear_combination (egcd b (a % b)).2 * hdm
+      linear_combination (egcdAux n b (a % b)).2 * hdm
+
+theorem egcd_spec (b a : Nat) : (egcd a b).1 * (a : ℤ) + (egcd a b).2 * (b : ℤ) = (Nat.gcd a b : ℤ) :=
+  egcdAux_spec (b + 1) a b (Nat.lt_succ_self b)
 
 theorem sgn_mul_self (a : ℤ) : sgn a * a = (a.natAbs : ℤ) := by
   unfold sgn
